@@ -102,6 +102,15 @@ pub fn expect_op(op: &Op, mark: &str, result: &OpResult, frame_max: usize, consu
             Mode::Sync => v.push(q_declare(name, false, *durable, *exclusive, *auto_delete, false, make_table(*args, mark))),
             Mode::Nowait => v.push(q_declare(name, false, *durable, *exclusive, *auto_delete, true, make_table(*args, mark))),
             Mode::Passive => v.push(q_declare(name, true, false, false, false, false, FieldTable::new())),
+            Mode::SyncThenUse => {
+                v.push(q_declare(name, false, *durable, *exclusive, *auto_delete, false, make_table(*args, mark)));
+                // the handle carries the name the server answered with: the requested one, or for an empty
+                // request the name the simulated broker derives from the declare's x-mark argument
+                if !matches!(result, OpResult::Err(_)) {
+                    let used = if name.is_empty() { format!("amq.gen-{}", mark) } else { name.clone() };
+                    v.push(ExpFrame::Method(AMQPClass::Queue(Q::Purge(queue::Purge { ticket: 0, queue: used, nowait: true }))));
+                }
+            }
         },
         Op::QueueBind { queue, exchange, rk, args, nowait, via_queue } => {
             if *via_queue {
@@ -148,6 +157,7 @@ pub fn expect_op(op: &Op, mark: &str, result: &OpResult, frame_max: usize, consu
             // passive: the documentation says every other field is ignored by the server; the
             // type sent is "direct"
             Mode::Passive => v.push(x_declare(name, "direct", true, false, false, false, false, FieldTable::new())),
+            Mode::SyncThenUse => v.push(x_declare(name, &ty.name(), false, *durable, *auto_delete, *internal, false, make_table(*args, mark))),
         },
         Op::ExchangeBind { dest, src, rk, args, nowait, via } => {
             if *via != 0 {
